@@ -483,6 +483,7 @@ func extraFacts(repo string, fc *Facts) error {
 	raw.WriteString("]\n")
 	fc.Raw = append(fc.Raw, raw.String())
 	fc.Raw = append(fc.Raw, checkPageLean(repo))
+	fc.Raw = append(fc.Raw, pageDataCodecsLean(repo))
 	return nil
 }
 
